@@ -24,7 +24,7 @@ from vp.flo.inv import Static
 
 PROPERTY = "C06"
 LEVEL = "exploration"
-PROFILE = {"driver": True, "aux_policy": "clean", "auxes": (0, 2), "frames": (2, 7), "depth": 4, "slaves": (0, 1),
+PROFILE = {"driver_cmp": True, "driver": True, "aux_policy": "clean", "auxes": (0, 2), "frames": (2, 7), "depth": 4, "slaves": (0, 1),
            "aux_owner": "taskable", "aux_place": "first", "let_in_aux": False, "aux_completes": True,
            "kinds": {"data": 6, "go": 9, "let": 1, "timeout": 1, "repeat": 1, "aux": 2, "auxif": 3, "bid": 2, "done": 2, "fiat": 1},
            "needs": {"cmp": 4, "bool": 0, "elapsed": 2, "recurred": 5, "done": 1, "status": 0, "auxdone": 1}}
@@ -65,7 +65,7 @@ def classes(prog, r):
     return sorted(_shapes(prog, r)) or ["no-transition-taken"]
 
 
-CHECK = ProfileCheck(PROFILE, ["c06"], nontrivial, classes)
+CHECK = ProfileCheck(PROFILE, ["c06"], nontrivial, classes, directed=__import__("vp.flo.gen", fromlist=["x"]).suspend_scenario, directed_share=2)
 
 
 # ------------------------------------------------------------------ ExEn family
